@@ -1,7 +1,9 @@
 """C19 Client spec bunching preserves order and limits — correspondence of Bunch.createBunches with the real
 hailtop.batch_client.aioclient.Batch._create_bunches."""
+import asyncio
 import json
 import random
+import re
 
 from .. import loader
 from ..framework import Prop, generic_shrink_list
@@ -15,15 +17,23 @@ class C19(Prop):
     design_ref = 'DESIGN.md §4 C19'
     technique = 'Lean 4 proof by induction over the spec list (loop invariant) + differential correspondence with the real _create_bunches'
     level_text = ('Theorems for all spec lists, size functions and limits: concatenation of bunches = groups ++ jobs, every bunch < byte limit, '
-                  '<= count limit, non-empty, accepted iff limits positive and every spec below the byte limit. The model is tied to the real '
-                  'Batch._create_bunches by differential runs on boundary-directed size lists on every run.')
+                  '<= count limit, non-empty, accepted iff limits positive and every spec below the byte limit. Caller level (state machine of '
+                  'the pending-spec buffers of aioclient.Batch): every submit posts exactly the pending specs and resets all buffers; for any '
+                  'script of creations and submits each spec is posted exactly once, in creation order; announced counts equal posted counts. '
+                  'The models are tied to the real Batch._create_bunches by differential runs on boundary-directed size lists and to the real '
+                  'Batch.create_job / create_job_group / submit (recording client) by multi-submit scripts on every run.')
     level_note = ('Trusted: Lean kernel; hand-written model Bunch.createBunches agrees with the Python loop only as far as the correspondence '
                   'cases show; orjson replaced by a json shim (only byte length is read).')
     budget = {'quick': 4000, 'thorough': 120000}
     search_budget = {'quick': 20000, 'thorough': 200000}
-    rule = ('case = (maxBytes, maxN, job-group spec sizes, job spec sizes); specs are real JSON dicts whose orjson size is the '
+    rule = ('pure case = (maxBytes, maxN, job-group spec sizes, job spec sizes); specs are real JSON dicts whose orjson size is the '
             'wanted size; sizes are random and boundary-directed (running sum = maxBytes-1 / maxBytes, bunch length = maxN); '
-            'non-trivial = accepted input producing >= 2 bunches; distinct by full case')
+            'non-trivial = accepted input producing >= 2 bunches. submits case = a REAL aioclient.Batch whose client is a recorder: '
+            '1-3 rounds, each creating job groups and jobs (interleaved, padded attributes) through create_job_group / create_job and then '
+            'calling submit(max_bunch_bytesize, max_bunch_size); observed per submit: route (create-fast / update-fast / create+bunches+commit), '
+            'announced n_job_groups / n_jobs, the uids and byte totals of every posted bunch; oracle: the posted job groups / jobs are exactly '
+            'those created since the previous successful submit, in order, announced counts equal, limits kept, nothing sent when nothing '
+            'is pending. distinct by full case')
     trusted = ['orjson shim (json.dumps(..., separators=(",",":")).encode()): the algorithm only reads the byte length']
     assumptions = ['spec byte sizes are those of the shimmed orjson.dumps']
 
@@ -72,9 +82,237 @@ class C19(Prop):
                 max_n = 0 if rng.random() < 0.5 else max_n
                 max_bytes = 0 if max_n else max_bytes
             yield {'maxBytes': max_bytes, 'maxN': max_n, 'groups': sizes[:ng], 'jobs': sizes[ng:]}
+        for _ in range(max(200, n // 8)):
+            yield self._submits_case(rng)
+
+    # ---- caller level: a real Batch object submitted several times ---------------------------------------------------
+    def _submits_case(self, rng):
+        rounds = []
+        for _r in range(rng.choice([1, 2, 2, 3, 3])):
+            ops = []
+            shape = rng.random()
+            for _i in range(rng.choice([0, 1, 2, 3, 4, 6, 9])):
+                if shape < 0.2:
+                    kind = 'j'
+                elif shape < 0.3:
+                    kind = 'g'
+                else:
+                    kind = rng.choice('gjj')
+                ops.append([kind, rng.choice([0, 0, 0, 1, 7, 40, 200])])
+            max_bytes = rng.choice([10 ** 6, 10 ** 6, 2000, 900, 520, 330])
+            if rng.random() < 0.04:
+                max_bytes = 250                    # below the size of a job spec: the assertion of _create_bunches fires
+            rounds.append({'maxBytes': max_bytes, 'maxN': rng.choice([1, 2, 3, 5, 1024, 1024]), 'ops': ops})
+        return {'k': 'submits', 'rounds': rounds}
+
+    class _Resp:
+        def __init__(self, payload):
+            self.payload = payload
+
+        async def json(self):
+            return self.payload
+
+    class _Recorder:
+        """stands in for BatchClient: records every request, answers like the server would"""
+        billing_project = 'verif'
+
+        def __init__(self):
+            self.posts = []
+            self.n_jobs = 0
+            self.n_groups = 0
+            self.pending = [0, 0]
+
+        async def _post(self, path, data=None, json=None):  # noqa: A002 (signature of BatchClient._post)
+            import json as _json
+            body = json if json is not None else _json.loads(bytes(data._value))
+            self.posts.append((path, body))
+            R = C19._Resp
+            if path.endswith('/create-fast') or path.endswith('/update-fast'):
+                r = {'id': 1, 'start_job_group_id': self.n_groups + 1, 'start_job_id': self.n_jobs + 1}
+                self.n_jobs += len(body['bunch'])
+                self.n_groups += len(body['job_groups'])
+                return R(r)
+            if path.endswith('/batches/create'):
+                self.pending = [0, 0]
+                return R({'id': 1, 'update_id': 1 if (body['n_jobs'] or body['n_job_groups']) else None})
+            if path.endswith('/updates/create'):
+                self.pending = [0, 0]
+                return R({'update_id': 2})
+            if path.endswith('/job-groups/create'):
+                self.pending[0] += len(body)
+                return R({})
+            if path.endswith('/jobs/create'):
+                self.pending[1] += len(body)
+                return R({})
+            raise AssertionError(f'unexpected request {path}')
+
+        async def _patch(self, path):
+            r = {'start_job_group_id': self.n_groups + 1, 'start_job_id': self.n_jobs + 1}
+            self.n_groups += self.pending[0]
+            self.n_jobs += self.pending[1]
+            return C19._Resp(r)
+
+    @staticmethod
+    def _nbytes(spec):
+        return len(json.dumps(spec, separators=(',', ':')).encode())     # = the orjson shim the client uses
+
+    def _play(self, c):
+        """run the script on a real Batch; per round: created uids, sizes, the requests of the submit"""
+        key = json.dumps(c, sort_keys=True)
+        if getattr(self, '_play_key', None) == key:
+            return self._play_val
+        rec = self._Recorder()
+        batch = self.ac.Batch(rec, None, token='verif-token')
+        uid = 0
+        sizes = {}
+        out = []
+
+        async def go():
+            nonlocal uid
+            for rnd in c['rounds']:
+                created = {'g': [], 'j': []}
+                for kind, pad in rnd['ops']:
+                    uid += 1
+                    attrs = {'uid': str(uid)}
+                    if pad:
+                        attrs['p'] = 'x' * pad
+                    if kind == 'g':
+                        n0 = len(batch._job_group_specs)
+                        batch.create_job_group(attributes=attrs)
+                        sizes[uid] = self._nbytes(batch._job_group_specs[n0])
+                    else:
+                        n0 = len(batch._job_specs)
+                        batch.create_job('ubuntu:22.04', ['true'], attributes=attrs)
+                        sizes[uid] = self._nbytes(batch._job_specs[n0])
+                    created[kind].append(uid)
+                n_posts = len(rec.posts)
+                try:
+                    await batch.submit(max_bunch_bytesize=rnd['maxBytes'], max_bunch_size=rnd['maxN'], disable_progress_bar=True)
+                    raised = False
+                except AssertionError:
+                    raised = True
+                out.append({'created': created, 'raised': raised, 'posts': rec.posts[n_posts:]})
+
+        import logging
+        logging.disable(logging.CRITICAL)           # "Tried to submit an update with 0 jobs…" is expected here
+        try:
+            asyncio.run(go())
+        finally:
+            logging.disable(logging.NOTSET)
+        self._play_key, self._play_val = key, (out, sizes)
+        return self._play_val
+
+    @staticmethod
+    def _uids(specs):
+        return [int(sp['attributes']['uid']) for sp in specs]
+
+    def _render(self, rnd):
+        if rnd['raised']:
+            return 'raised'
+        posts = rnd['posts']
+        if not posts:
+            return 'quiet'
+        route = None
+        announced = None
+        fast = None
+        gs, js = [], []
+        for path, body in posts:
+            if path.endswith('/create-fast'):
+                route, announced, fast = 'new', body['batch'], body
+            elif path.endswith('/update-fast'):
+                route, announced, fast = 'upd', body['update'], body
+            elif path.endswith('/batches/create'):
+                route, announced = 'new', body
+            elif path.endswith('/updates/create'):
+                route, announced = 'upd', body
+            elif path.endswith('/job-groups/create'):
+                gs.append(body)
+            elif path.endswith('/jobs/create'):
+                js.append(body)
+        head = f"{route} n={announced['n_job_groups']},{announced['n_jobs']}"
+
+        def tot(specs):
+            return sum(self._nbytes(sp) for sp in specs)
+
+        def ids(specs):
+            return ','.join(map(str, self._uids(specs)))
+        if fast is not None:
+            g, j = fast['job_groups'], fast['bunch']
+            return f'{head} F[g:{ids(g)}|j:{ids(j)}]@{tot(g) + tot(j)}'
+        if not gs and not js:
+            return head + ' open'
+        js.sort(key=lambda b: self._uids(b)[0])        # job bunches are posted concurrently: wire order is not an observable
+        return head + ' ' + ' '.join([f'G[{ids(b)}]@{tot(b)}' for b in gs] + [f'J[{ids(b)}]@{tot(b)}' for b in js])
 
     def model_lines(self, c):
+        if c.get('k') == 'submits':
+            _out, sizes = self._play(c)
+            lines = ['reset']
+            uid = 0
+            for rnd in c['rounds']:
+                toks = []
+                for kind, _pad in rnd['ops']:
+                    uid += 1
+                    toks.append(f'{kind}{sizes[uid]}')
+                lines.append(' '.join(['round', str(rnd['maxBytes']), str(rnd['maxN'])] + toks))
+            return lines
         return [' '.join(map(str, [c['maxBytes'], c['maxN'], len(c['groups'])] + c['groups'] + c['jobs']))]
+
+    POST = re.compile(r'(F|G|J)\[([^\]]*)\]@(\d+)')
+
+    def _oracle_submits(self, c, out):
+        _played, sizes = self._play(c)
+        pend = {'g': [], 'j': []}
+        uid = 0
+        created_before = False
+        for k, (rnd, line) in enumerate(zip(c['rounds'], out[1:]), start=1):
+            for kind, _pad in rnd['ops']:
+                uid += 1
+                pend[kind].append(uid)
+            too_big = [u for u in pend['g'] + pend['j'] if sizes[u] >= rnd['maxBytes']]
+            what = f'submit #{k} (max_bunch_bytesize={rnd["maxBytes"]}, max_bunch_size={rnd["maxN"]})'
+            if line == 'raised':
+                if not too_big:
+                    return f'{what} raised although every pending spec is below the byte limit'
+                continue
+            if too_big:
+                return f'{what} went through although spec {too_big[0]} has {sizes[too_big[0]]} bytes'
+            if line == 'quiet':
+                if pend['g'] or pend['j'] or not created_before:
+                    return f'{what} sent nothing but job groups {pend["g"]} / jobs {pend["j"]} were created since the previous submit'
+                continue
+            m = re.match(r'(new|upd) n=(\d+),(\d+) (.*)$', line)
+            if not m:
+                return f'{what}: unreadable wire record {line!r}'
+            if (m.group(1) == 'upd') != created_before:
+                return f'{what} used the {"update" if m.group(1) == "upd" else "create"} route on a batch that is {"" if created_before else "not "}created'
+            posted = {'g': [], 'j': []}
+            for typ, body, nb in self.POST.findall(m.group(4)):
+                if typ == 'F':
+                    g, j = body.split('|')
+                    gg = [int(x) for x in g[2:].split(',') if x]
+                    jj = [int(x) for x in j[2:].split(',') if x]
+                    posted['g'] += gg
+                    posted['j'] += jj
+                    cnt = len(gg) + len(jj)
+                else:
+                    xs = [int(x) for x in body.split(',') if x]
+                    posted['g' if typ == 'G' else 'j'] += xs
+                    cnt = len(xs)
+                if cnt > rnd['maxN']:
+                    return f'{what} posted a bunch of {cnt} specs'
+                if int(nb) >= rnd['maxBytes']:
+                    return f'{what} posted a bunch of {nb} bytes'
+            if posted['g'] != pend['g']:
+                return (f'{what} posted job groups {posted["g"]} but the job groups created since the previous submit are {pend["g"]}')
+            if posted['j'] != pend['j']:
+                return f'{what} posted jobs {posted["j"]} but the jobs created since the previous submit are {pend["j"]}'
+            if (int(m.group(2)), int(m.group(3))) != (len(pend['g']), len(pend['j'])):
+                return (f'{what} announced n_job_groups={m.group(2)}, n_jobs={m.group(3)} but posts {len(pend["g"])} job groups and '
+                        f'{len(pend["j"])} jobs')
+            pend = {'g': [], 'j': []}
+            created_before = True
+        return None
 
     def _run(self, c):
         specs = [self.spec(i, s) for i, s in enumerate(c['groups'] + c['jobs'])]
@@ -87,6 +325,9 @@ class C19(Prop):
         return bs
 
     def impl(self, c):
+        if c.get('k') == 'submits':
+            played, _sizes = self._play(c)
+            return ['ok'] + [self._render(r) for r in played]
         bs = self._run(c)
         if bs is None:
             return ['err']
@@ -95,6 +336,10 @@ class C19(Prop):
         return ['|'.join(','.join(str(json.loads(sb.spec_bytes)['i']) for sb in b) for b in bs)]
 
     def oracle(self, c, out):
+        if out and out[0].startswith('IMPL-EXC'):
+            return out[0]
+        if c.get('k') == 'submits':
+            return self._oracle_submits(c, out)
         sizes = c['groups'] + c['jobs']
         legal = c['maxBytes'] > 0 and c['maxN'] > 0 and all(s < c['maxBytes'] for s in sizes)
         if out[0].startswith('IMPL-EXC'):
@@ -123,6 +368,15 @@ class C19(Prop):
         return None
 
     def classify(self, c, out):
+        if c.get('k') == 'submits':
+            lines = out[1:]
+            tags = [f'submits={len(lines)}']
+            for ln in lines:
+                tags.append('submit:' + ('raised' if ln == 'raised' else 'quiet' if ln == 'quiet' else 'fast' if ' F[' in ln else
+                                         'open' if ln.endswith(' open') else 'bunches'))
+            if any('g' == k for r in c['rounds'][:-1] for k, _ in r['ops']) and len(c['rounds']) > 1:
+                tags.append('groups-before-a-later-submit')
+            return (json.dumps(c, sort_keys=True) if len(lines) > 1 or any(' G[' in ln or ' J[' in ln for ln in lines) else None, tags)
         tags = ['err' if out[0] == 'err' else 'empty' if out[0] == 'empty' else f"bunches={min(out[0].count('|') + 1, 5)}"]
         nontrivial = out[0] not in ('err', 'empty') and '|' in out[0]
         return (json.dumps(c, sort_keys=True) if nontrivial else None, tags)
@@ -131,6 +385,34 @@ class C19(Prop):
         return json.dumps(c, sort_keys=True)
 
     def shrink(self, c, fails):
+        if c.get('k') == 'submits':
+            cur = json.loads(json.dumps(c))
+            changed = True
+            while changed:
+                changed = False
+                for i in range(len(cur['rounds'])):
+                    if len(cur['rounds']) > 1:
+                        cand = {**cur, 'rounds': cur['rounds'][:i] + cur['rounds'][i + 1:]}
+                        if fails(cand):
+                            cur, changed = cand, True
+                            break
+                    ops = cur['rounds'][i]['ops']
+                    for j in range(len(ops)):
+                        cand = json.loads(json.dumps(cur))
+                        del cand['rounds'][i]['ops'][j]
+                        if fails(cand):
+                            cur, changed = cand, True
+                            break
+                    if changed:
+                        break
+            for r in cur['rounds']:
+                for op in r['ops']:
+                    if op[1]:
+                        old = op[1]
+                        op[1] = 0
+                        if not fails(cur):
+                            op[1] = old
+            return cur
         cur = dict(c)
         for fld in ('jobs', 'groups'):
             def f(lst, fld=fld):
